@@ -162,6 +162,7 @@ def run(ctx):
     _unit_modifiers(ctx, r2, bm, ps)
     r5 = ctx.rule("C18.R5", "ROUNDTRIP: writer and reader COMPOSED by interpretation (XML elements and the ROOT histogram store are modelled; numbers travel as text and back): a channel with two samples carrying all seven modifier types, its observation and two measurements (one with a fixed luminosity, a configured normalisation factor and a fixed constrained parameter; one in which nothing is constant) are written by build_channel / build_measurement and read by process_channel / process_measurements; channel name, observation, sample names and yields, every modifier with its data, the POI, the luminosity value and width, the normfactor settings and the constant flags must come back (positive and negative yields)", "ROUNDTRIP", floor=2)
     _roundtrip(ctx, r5, repo)
+    _whole_files(ctx, r5, repo)
 
     # ------------------------------------------------------------ R3
     prefixes = None
@@ -626,3 +627,130 @@ def _roundtrip(ctx, rid, repo):
             ctx.violated(rid, repo.func(W, "build_channel") if "measurement" not in what and "luminosity" not in what and "constant" not in what else repo.func(W, "build_measurement"), f"round trip: {what} [{lab}]", f"export followed by import does not give back the {what}" + (f" (and {len(problems) - 1} more difference(s))" if len(problems) > 1 else ""), expected=str(exp), found=str(got))
         else:
             ctx.holds(rid, site, "channel, observation, 2 samples, 7 modifiers with data, POI, luminosity, normfactor settings, constant flags all recovered")
+
+
+def _whole_files(ctx, rid, repo):
+    """writexml(spec, ...) and readxml.parse(config, rootdir) interpreted as WHOLE functions over a dict file system: two
+    channels listed out of name order, one name shared by a normsys and a histosys, two measurements; the document parse
+    returns is compared with the specification that was written."""
+    from .. import xmlmodel
+    from ..alg import AutoRegion, NotHandled, RaisedInFragment, same_value
+    from ..objmodel import World
+    at = Poly.atom
+    wx, rp = repo.func(W, "writexml"), repo.func(R, "parse")
+    ctx.touch(wx)
+    ctx.touch(rp)
+    errs = (Undecided, KeyError, TypeError, ValueError, IndexError, AttributeError)
+
+    def spec():
+        def ch(name, tag, n):
+            return {"name": name, "samples": [
+                {"name": "sig", "data": [at(f"{tag}s{j}") for j in range(n)], "modifiers": [{"name": "mu", "type": "normfactor", "data": None}, {"name": "lumi", "type": "lumi", "data": None}]},
+                {"name": "bkg", "data": [at(f"{tag}b{j}") for j in range(n)], "modifiers": [
+                    {"name": "jes", "type": "normsys", "data": {"lo": at(f"{tag}NLO"), "hi": at(f"{tag}NHI")}},
+                    {"name": "jes", "type": "histosys", "data": {"lo_data": [at(f"{tag}l{j}") for j in range(n)], "hi_data": [at(f"{tag}h{j}") for j in range(n)]}},
+                    {"name": f"staterror_{name}", "type": "staterror", "data": [at(f"{tag}e{j}") for j in range(n)]}]}]}
+        return {"channels": [ch("SR", "S", 2), ch("CR", "C", 3)],
+                "observations": [{"name": "CR", "data": [at(f"Co{j}") for j in range(3)]}, {"name": "SR", "data": [at(f"So{j}") for j in range(2)]}],
+                "measurements": [{"name": "meas", "config": {"poi": "mu", "parameters": [
+                    {"name": "lumi", "auxdata": [at("L")], "sigmas": [at("S")], "bounds": [[at("LB"), at("UB")]], "inits": [at("L")], "fixed": True},
+                    {"name": "mu", "inits": [at("V")], "bounds": [[at("MLO"), at("MHI")]]}, {"name": "jes", "fixed": True}]}},
+                    {"name": "other", "config": {"poi": "mu", "parameters": [{"name": "lumi", "auxdata": [at("L")], "sigmas": [at("S")], "bounds": [[at("LB"), at("UB")]], "inits": [at("L")]}]}}],
+                "version": "1.0.0"}
+
+    def same(a, b):
+        if isinstance(a, (list, tuple)) and isinstance(b, (list, tuple)):
+            return len(a) == len(b) and all(same(x, y) for x, y in zip(a, b))
+        if isinstance(a, dict) and isinstance(b, dict):
+            return sorted(a) == sorted(b) and all(same(a[k], b[k]) for k in a)
+        if a is None or b is None or isinstance(a, (str, bool)) or isinstance(b, (str, bool)):
+            return a == b
+        return same_value(a, b) is True
+
+    def show(v):
+        if isinstance(v, (list, tuple)):
+            return [show(x) for x in v]
+        if isinstance(v, dict):
+            return {k: show(x) for k, x in v.items()}
+        return v if v is None or isinstance(v, (str, bool)) else str(to_poly(v))
+
+    fs, store = {}, {}
+    try:
+        ext = xmlmodel.externals(store)
+        ext.update(rxmodel.externals())
+        ext.update(xmlmodel.file_externals(fs, store))
+        ext.update({"validate": lambda a, k: None})
+        menv = {"ET": Obj("ET"), "np": Obj("np"), "log": Obj("log"), "compat": Obj("compat"), "re": Obj("re"), "tqdm": Obj("tqdm"), "shutil": Obj("shutil"), "uproot": Obj("uproot"),
+                "schema_path": xmlmodel.mkpath("SCHEMAS"), "schema": Obj("schema", {"version": "1.0.0"}), "exceptions": Obj("exceptions"), "_ROOT_DATA_FILE": None,
+                **rxmodel.compiled_globals(repo.module(C)), **rxmodel.compiled_globals(repo.module(W)), **rxmodel.compiled_globals(repo.module(R))}
+        w = World(ext, region=AutoRegion(), module_env=menv)
+        for rel_ in (W, R):
+            for q, f_ in repo.module(rel_).funcs.items():
+                if "." not in q and q not in ext and q not in ("writexml", "parse", "clear_filecache", "extract_error", "import_root_histogram", "_export_root_histogram", "__dir__"):
+                    w.add_func(f_)
+        w.add_func(repo.func(C, "interpret_rootname"))
+        w.add_class(repo.cls("src/pyhf/mixins.py", "_ChannelSummaryMixin"))
+        base_iter = w.externals()["__iter__"]
+        w.externals()["__iter__"] = lambda v: list(v.children) if isinstance(v, xmlmodel.Elem) else base_iter(v)
+        sp = spec()
+        top = w.call_func(wx, [sp, "out/xml", "out/data", "config"])
+        if not (isinstance(top, Obj) and top.name == "xmltext" and isinstance(top.attrs.get("elem"), xmlmodel.Elem)):
+            raise Undecided("writexml does not return the serialised top-level document")
+        fs["out/config.xml"] = top.attrs["elem"]
+        got = w.call_func(rp, ["out/config.xml", "."], {})
+    except RaisedInFragment as e:
+        ctx.violated(rid, wx, "writexml -> parse (whole functions)", f"export followed by import of a two-channel workspace raises {e.exc_name}")
+        return
+    except errs as e:
+        ctx.unrecognised(rid, wx, "writexml -> parse (whole functions)", f"not interpretable: {type(e).__name__}: {e}")
+        return
+    orig = spec()
+    problems = []
+    if not isinstance(got, dict):
+        problems.append(("result", "a workspace document", type(got).__name__))
+    else:
+        gch = {c_["name"]: c_ for c_ in got.get("channels", [])}
+        if sorted(c_["name"] for c_ in got.get("channels", [])) != sorted(c_["name"] for c_ in orig["channels"]):
+            problems.append(("channels", sorted(c_["name"] for c_ in orig["channels"]), sorted(c_.get("name") for c_ in got.get("channels", []))))
+        gobs = {o_["name"]: o_["data"] for o_ in got.get("observations", [])}
+        for o_ in orig["observations"]:
+            if not same(gobs.get(o_["name"]), o_["data"]):
+                problems.append((f"observation of {o_['name']}", show(o_["data"]), show(gobs.get(o_["name"]))))
+        for oc in orig["channels"]:
+            gs = {s_["name"]: s_ for s_ in gch.get(oc["name"], {}).get("samples", [])}
+            for os_ in oc["samples"]:
+                g_ = gs.get(os_["name"])
+                if g_ is None:
+                    problems.append((f"sample {os_['name']} of {oc['name']}", "present", "missing"))
+                    continue
+                if not same(g_["data"], os_["data"]):
+                    problems.append((f"yields of {os_['name']} in {oc['name']}", show(os_["data"]), show(g_["data"])))
+                gm = {(m["name"], m["type"]): m["data"] for m in g_["modifiers"]}
+                om = {(m["name"], m["type"]): m["data"] for m in os_["modifiers"]}
+                if sorted(gm) != sorted(om):
+                    problems.append((f"modifiers of {os_['name']} in {oc['name']}", sorted(om), sorted(gm)))
+                for key_ in om:
+                    if key_ in gm and not same(gm[key_], om[key_]):
+                        problems.append((f"data of {key_[1]} {key_[0]} on {os_['name']} in {oc['name']}", show(om[key_]), show(gm[key_])))
+        gmz = got.get("measurements", [])
+        if [m_["name"] for m_ in gmz] != ["meas", "other"]:
+            problems.append(("measurements", ["meas", "other"], [m_.get("name") for m_ in gmz]))
+        else:
+            pars = {p_["name"]: p_ for p_ in gmz[0]["config"]["parameters"]}
+            fixed_got = sorted(n for n, p_ in pars.items() if p_.get("fixed") is True)
+            if gmz[0]["config"]["poi"] != "mu" or fixed_got != ["jes", "lumi"]:
+                problems.append(("POI / constant parameters of the first measurement", "mu / ['jes', 'lumi']", f"{gmz[0]['config']['poi']} / {fixed_got}"))
+            lum = pars.get("lumi", {})
+            if not (same(lum.get("auxdata"), [at("L")]) and same(lum.get("sigmas"), [at("S")])):
+                problems.append(("luminosity value / width", "auxdata [L], sigmas [S]", show({k: lum.get(k) for k in ("auxdata", "sigmas")})))
+            mu = pars.get("mu", {})
+            if not (same(mu.get("inits"), [at("V")]) and same(mu.get("bounds"), [[at("MLO"), at("MHI")]])):
+                problems.append(("normfactor settings", "inits [V], bounds [[MLO, MHI]]", show({k: mu.get(k) for k in ("inits", "bounds")})))
+            fixed2 = sorted(p_["name"] for p_ in gmz[1]["config"]["parameters"] if p_.get("fixed") is True)
+            if fixed2:
+                problems.append(("constant parameters of the second measurement", [], fixed2))
+    if problems:
+        what, exp, gotv = problems[0]
+        ctx.violated(rid, wx, f"writexml -> parse: {what}", f"writing a two-channel workspace with writexml and reading the files back with readxml.parse does not give back the {what}" + (f" (and {len(problems) - 1} more difference(s))" if len(problems) > 1 else ""), expected=str(exp), found=str(gotv))
+    else:
+        ctx.holds(rid, f"{W}::writexml -> {R}::parse [whole functions over a file model]", f"{len(fs)} XML documents, {len(store)} histograms: 2 channels, observations by channel name, samples, yields, 5 modifiers each with data, 2 measurements, POI, luminosity, constant flags")
